@@ -277,6 +277,12 @@ impl Process {
 
     #[instrument()]
     pub fn do_action(self: &Arc<Self>, action: &Action) -> Result<()> {
+        if self.state().is_completed() {
+            return Err(ActError::Action(format!(
+                "process '{}' is already completed",
+                self.id
+            )));
+        }
         let mut action = action.clone();
         let task = self.task(&action.tid).ok_or(ActError::Action(format!(
             "cannot find task by '{}' tasks={:?}",
